@@ -42,6 +42,17 @@ LEVEL_TEXT = ('Partial. Coq theorems over hand models tied to the source by exac
               'discharged by ONE computed certificate elev_cert_okb (soundness proved over Q -> R) evaluated in Coq on the implementation\'s tables for orders 2..5 '
               'with and without bubble (delta = delta\' = 1e-14); the binary64 instance of the SAME definition em_coords is executed in Coq and compared with the '
               'implementation\'s coordinate array entry by entry (4e-16 scale). Not proved: binary64 rounding of the two matrix products. '
+              '(6b) GEOMETRIC NON-DEGENERACY (round 4; C13_lagrange_shapes_reproduce_affine, C13_isoparametric_map_is_affine_exact, C13_isoparametric_jacobian, '
+              'C13_elevated_jacobian_certified): optimism takes every element\'s geometry from its three vertex nodes only (FunctionSpace: jac = cross(v1-v0, v2-v0), '
+              'J = column_stack((v0-v2, v1-v2))); proved: for every elevated element of the closed statement and every point at which the shape row reproduces '
+              '1, xi0, xi1 and their gradients, the isoparametric map sum_a N_a x_a of the element\'s OWN stored nodes is the affine map of its simplex, its Jacobian '
+              'matrix is exactly that column_stack and its determinant the simplex Jacobian (equalities for exact tables; with the certificate tolerances explicit '
+              'bounds entry_bound / det_bound ~ (eps + lam*5*delta) * size, and positivity whenever twice the area exceeds det_bound); exact Lagrange shape functions '
+              '(the solution of the transposed Vandermonde systems shape2d solves, ANY basis whose span contains the affine functions) reproduce at EVERY point; '
+              'the implementation\'s numerically computed shape tables at the quadrature points are certified in Coq over Q on every run for orders 2..5 with and '
+              'without bubble (jac_cert_okb: reproduction within 1e-12, sum|grad N| <= 256; soundness proved), and the conclusion is evaluated on every element '
+              'of the implementation\'s elevated meshes at every quadrature point. Not proved: that vander2d\'s Dubiner basis spans P1 (hypothesis of the Lagrange '
+              'theorem), the every-point statement for the bubble elements and for the binary64 linear solves (certified tables only). '
               '(7) READERS, whole file (C13_read_exodus_elements / _blocks / _nodesets / _sidesets / _simplex, C13_read_json_sidesets): for the model read_exodus of '
               'read_exodus_mesh as a function of the file content (1-based block records, node-set records, (element, side) records, name records with empty names) '
               'and every well-formed file: one mesh row per file row at block_first b + i holding the file row minus one (6-node rows in native order), all entries '
@@ -51,15 +62,27 @@ LEVEL_TEXT = ('Partial. Coq theorems over hand models tied to the source by exac
               '\'block_2\' followed by an unnamed block) -- reproduced on the implementation, open finding C13-READ-NAMES. The whole-file model is compared with '
               'the reader on in-memory files AND on the 8 real classic-netCDF Exodus files of the repository (6 of them, <= 2500 elements, also through Coq; all 8 '
               'through the conclusion predicate). netCDF4 is not installed: the reader code runs unchanged on a stand-in for netCDF4.Dataset backed by '
-              'scipy.io.netcdf_file (real files) or by in-memory arrays; the 3 HDF5-based fixtures cannot be read here. Not modelled: the netCDF/JSON byte layer, '
-              'name decoding, block_maps and coordinates (tested only).')
+              'scipy.io.netcdf_file (real files) or by in-memory arrays; the 3 HDF5-based fixtures cannot be read here. '
+              '(7b) round 4: C13_dict_assignment_lossless_iff (dict(zip(names, vals)) keeps one entry per record IFF the names are pairwise distinct), so the '
+              'distinct-names hypothesis is exactly the loss-free case; the PROPOSED repair of C13-READ-NAMES (tools/vlib/c13_read_names.patch: raise ValueError when the '
+              'final names of a kind are not pairwise distinct) is modelled as read_exodus_checked: it accepts exactly the files with distinct final names and returns '
+              'what the present reader returns (C13_read_exodus_checked_spec), rejects exactly the well-formed files on which the present reader drops a record '
+              '(C13_read_exodus_rejects_iff_record_lost) and on every accepted file nothing is lost with NO hypothesis on names (C13_read_exodus_checked_no_loss); '
+              'the patch text is applied to the current source in memory on every run and compared with the model. block_maps: C13_read_block_maps (under distinct '
+              'names block b gets the slice [first_b, first_b+n_b) of the element number map -- the file\'s or 1..nE -- and the slices in order are the whole map), '
+              'C13_read_block_maps_name_clash_refuted (misaligned under a clash: same finding); coordinates: C13_read_coords (row i = (coordx[i], coordy[i])). '
+              'A new stream generates files whose final names coincide (given names equal to each other or to auto-generated names): the present reader agrees '
+              'with the whole-file model there too (the model predicts the overwrite exactly); its losses are reported under the open finding. '
+              'Not modelled: the netCDF/JSON byte layer, name decoding, masked-array .filled() of the coordinate records.')
 TECHNIQUE = 'Coq proof over hand models (nat/Z/list; coordinates over R in theorems) + vm_compute correspondence with exact integer comparison'
 GEN = []
 TARGETS = ['model/M_C13_Elevate.vo', 'model/M_C13_Coords.vo', 'model/M_C13_ElevMesh.vo', 'proofs/L_C13_ElevMesh.vo', 'model/M_C13_ReadFile.vo', 'proofs/L_C13_ReadFile.vo', 'proofs/L_C13_Elevate.vo', 'proofs/L_C13_Elev2.vo', 'proofs/L_C13_Elev3.vo', 'proofs/L_C13_Coords.vo', 'model/M_C13_Struct.vo', 'model/M_C13_Edges.vo', 'model/M_C13_Combine.vo', 'model/M_C13_Read.vo',
-           'proofs/L_C13_Struct.vo', 'proofs/L_C13_Edges.vo', 'proofs/L_C13_Combine.vo', 'proofs/L_C13_Read.vo', 'proofs/L_C13_Top.vo']
+           'proofs/L_C13_Struct.vo', 'proofs/L_C13_Edges.vo', 'proofs/L_C13_Combine.vo', 'proofs/L_C13_Read.vo', 'proofs/L_C13_Top.vo',
+           'model/M_C13_ReadChk.vo', 'proofs/L_C13_ReadChk.vo', 'model/M_C13_Jac.vo', 'proofs/L_C13_Jac.vo']
 COQ_FILES = ['base/Num.v', 'model/M_C13_Struct.v', 'model/M_C13_Edges.v', 'model/M_C13_Combine.v', 'model/M_C13_Read.v',
              'proofs/L_C13_Struct.v', 'proofs/L_C13_Edges.v', 'proofs/L_C13_Combine.v', 'proofs/L_C13_Read.v', 'proofs/L_C13_Top.v',
-             'model/M_C13_Elevate.v', 'model/M_C13_Coords.v', 'proofs/L_C13_Elevate.v', 'proofs/L_C13_Elev2.v', 'proofs/L_C13_Elev3.v', 'proofs/L_C13_Coords.v', 'model/M_C13_ElevMesh.v', 'proofs/L_C13_ElevMesh.v', 'model/M_C13_ReadFile.v', 'proofs/L_C13_ReadFile.v', 'props/P_C13.v']
+             'model/M_C13_Elevate.v', 'model/M_C13_Coords.v', 'proofs/L_C13_Elevate.v', 'proofs/L_C13_Elev2.v', 'proofs/L_C13_Elev3.v', 'proofs/L_C13_Coords.v', 'model/M_C13_ElevMesh.v', 'proofs/L_C13_ElevMesh.v', 'model/M_C13_ReadFile.v', 'proofs/L_C13_ReadFile.v',
+             'model/M_C13_ReadChk.v', 'proofs/L_C13_ReadChk.v', 'model/M_C13_Jac.v', 'proofs/L_C13_Jac.v', 'props/P_C13.v']
 TRUSTED = ['Coq 8.16.1 kernel + vm_compute (no native_compute)',
            'hand-written models coq/model/M_C13_*.v, tied by exact comparison of connectivity, edge tables, merged meshes and reader outputs',
            'harness: exact float -> rational conversion of coordinates, SciPy Delaunay as a generator of valid triangulations',
@@ -67,14 +90,18 @@ TRUSTED = ['Coq 8.16.1 kernel + vm_compute (no native_compute)',
 ASSUMPTIONS = ['np.linspace returns strictly increasing arrays for the extents used (checked exactly on every generated case)',
                'order elevation: connectivity theorems are about the write-log model (functional array updates, last write wins); coordinate theorems are over R, the binary64 instance of the same definition is compared with the implementation (rounding of np.dot not proved)',
                'real Exodus files are read through scipy.io.netcdf_file instead of netCDF4 (classic / 64-bit-offset files only; byte order normalised to native as netCDF4 does); ReadMesh.read_json_mesh is exercised on real files written by the harness',
-               'reader theorems on blocks / sets assume pairwise distinct final names (needed: C13_read_exodus_name_clash_refuted, open finding C13-READ-NAMES)',
+               'reader theorems on blocks / sets of the PRESENT reader assume pairwise distinct final names (needed and exact: C13_read_exodus_name_clash_refuted, C13_dict_assignment_lossless_iff; open finding C13-READ-NAMES); the theorems without that hypothesis are about read_exodus_checked, the reader with the proposed patch (tools/vlib/c13_read_names.patch), which is NOT the repository\'s code today',
+               'isoparametric Jacobian: the every-point statement needs shape rows that reproduce the affine functions exactly (true of the exact solution of the Vandermonde systems when the basis spans P1 -- a hypothesis); the computed binary64 tables are covered at the quadrature points by the certificate (1e-12)',
                'numpy/jax indexing, unique and concatenate behave as modelled (tied by the correspondence, not proved)']
 RULE = ('cases: structured sizes 2..7 x 2..7 with random extents; random Delaunay triangulations (6..30 points, optional hole, random cyclic '
         'rotation per element, occasionally one flipped element) through create_edges; random pairs of meshes with random block / node-set / '
         'side-set names (mostly clashing, some distinct) through combine_mesh; abstract Exodus descriptions (tri3/tri6, 1..3 blocks, named and unnamed sets) '
-        'and JSON files through the readers, plus the 8 real classic-netCDF Exodus files of the repository (tests and examples); elevation orders 2..5 with and without bubble.  Non-trivial = at least 2 elements; '
+        'and JSON files through the readers, plus the 8 real classic-netCDF Exodus files of the repository (tests and examples); Exodus descriptions with 2..4 blocks / 0..3 node sets / 0..3 side sets whose '
+        'names are drawn from {empty, the auto-generated names, one fixed name} so that final names often coincide (present reader, and the reader with the proposed patch applied in memory); '
+        'elevation orders 2..5 with and without bubble, isoparametric Jacobian at every quadrature point of every elevated element.  Non-trivial = at least 2 elements; '
         'distinct = distinct inputs')
-IMPORTS = ['From OV.model Require Import M_C13_Struct M_C13_Edges M_C13_Combine M_C13_Read M_C13_Elevate M_C13_Coords M_C13_ElevMesh.']
+IMPORTS = ['From OV.model Require Import M_C13_Struct M_C13_Edges M_C13_Combine M_C13_Read M_C13_Elevate M_C13_Coords M_C13_ElevMesh M_C13_Jac.']
+PATCH_FILE = os.path.join(os.path.dirname(os.path.abspath(__file__)), '..', 'vlib', 'c13_read_names.patch')
 NAMES = ['block_0', 'left', 'right', 'top', 'bottom', 'all', 'inner', 'b1', 'b2']
 
 
@@ -581,12 +608,17 @@ class NameIds:
 
 def exo_expr(desc, ids):
     """Coq term: enc_rmesh of the whole-file reader model on the abstract description (1-based, as in the file)"""
+    return 'enc_rmesh (read_exodus %s)' % exo_args(desc, ids)
+
+
+def exo_args(desc, ids):
+    """the arguments `six autoB autoN autoS file` of read_exodus / read_exodus_checked / enc_block_maps for an abstract description"""
     one = lambda l: zl([i + 1 for i in l])
     blocks1 = '[' + '; '.join('[' + '; '.join(one(row) for row in b) + ']' for b in desc['blocks']) + ']'
     ns1 = '[' + '; '.join(one(s_) for s_ in desc['nodesets']) + ']'
     ss1 = '[' + '; '.join('(%s, %s)' % (one([e for e, _ in s_]), one([q for _, q in s_])) for s_ in desc['sidesets']) + ']'
     auto = lambda pre, n: zl([ids.id(pre + str(i + 1)) for i in range(n)])
-    return ('enc_rmesh (read_exodus %s (auto_of %s) (auto_of %s) (auto_of %s) (mk_exo %d %s %s %s %s %s %s))'
+    return ('%s (auto_of %s) (auto_of %s) (auto_of %s) (mk_exo %d %s %s %s %s %s %s)'
             % ('true' if desc['six'] else 'false', auto('block_', len(desc['blocks'])), auto('nodeset_', len(desc['nodesets'])),
                auto('sideset_', len(desc['sidesets'])), len(desc['coords']), blocks1, zl([ids.id(n) for n in desc['bnames']]),
                ns1, zl([ids.id(n) for n in desc['nsnames']]), ss1, zl([ids.id(n) for n in desc['ssnames']])))
@@ -658,10 +690,15 @@ def exodus_name_clash_witness():
             'num_el_in_blk1': _Dim(1), 'num_el_in_blk2': _Dim(1)}
     var = {'coordx': _Var(np.array([0., 1., 1., 0.]), masked=True), 'coordy': _Var(np.array([0., 0., 1., 1.]), masked=True),
            'eb_names': _Var(names_record(['block_2', ''])),
-           'connect1': _Var(np.array([[1, 2, 3]], dtype=np.int32), elem_type='TRI3'), 'connect2': _Var(np.array([[1, 3, 4]], dtype=np.int32), elem_type='TRI3')}
+           'connect1': _Var(np.array([[1, 2, 3]], dtype=np.int32), elem_type='TRI3'), 'connect2': _Var(np.array([[1, 3, 4]], dtype=np.int32), elem_type='TRI3'),
+           'elem_num_map': _Var(np.array([10, 20], dtype=np.int32))}
     _Dataset.store['c13_name_clash'] = (dims, var)
-    mesh = ReadExodusMesh.read_exodus_mesh('c13_name_clash')
-    return dict(elements=int(np.asarray(mesh.conns).shape[0]), blocks={k: np.asarray(v).tolist() for k, v in mesh.blocks.items()})
+    try:
+        mesh = ReadExodusMesh.read_exodus_mesh('c13_name_clash')
+    except ValueError as ex:
+        return dict(rejected=str(ex)[:200])
+    return dict(elements=int(np.asarray(mesh.conns).shape[0]), blocks={k: np.asarray(v).tolist() for k, v in mesh.blocks.items()},
+                block_maps={k: np.asarray(v).tolist() for k, v in (getattr(mesh, 'block_maps', None) or {}).items()})
 
 
 def install_fake_netcdf():
@@ -677,7 +714,65 @@ def names_record(names, width=8):
     return [[bytes([c]) for c in n.encode()] + [b''] * (width - len(n)) for n in names]
 
 
-def exodus_case(r):
+def clashy_names(r, n, pre):
+    """names prone to coincide with each other and with the auto-generated names pre<i+1>"""
+    pool = ['', ''] + [pre + str(i + 1) for i in range(n)] + ['A']
+    return [r.choice(pool) for _ in range(n)]
+
+
+def enc_block_maps_impl(mesh, ids):
+    import numpy as np
+    bm = getattr(mesh, 'block_maps', None) or {}
+    out = [len(bm)]
+    for k, v in bm.items():
+        v = np.asarray(v)
+        out += [ids.id(k), int(v.shape[0])] + [int(x) for x in v.ravel()]
+    return out
+
+
+def patched_reader_module():
+    """optimism/ReadExodusMesh.py with the PROPOSED patch of finding C13-READ-NAMES (tools/vlib/c13_read_names.patch) applied to the
+    current source text, as an in-memory module (nothing is written into the repository)"""
+    import subprocess
+    import tempfile
+    src = os.path.join(C.REPO, 'optimism', 'ReadExodusMesh.py')
+    with tempfile.TemporaryDirectory() as td:
+        out = os.path.join(td, 'patched.py')
+        p = subprocess.run(['patch', '-s', '-f', '-o', out, src, PATCH_FILE], stdout=subprocess.PIPE, stderr=subprocess.STDOUT, text=True)
+        if p.returncode != 0 or not os.path.exists(out):
+            return None, (p.stdout or '')[-300:]
+        code = open(out).read()
+    mod = types.ModuleType('optimism._c13_patched_ReadExodusMesh')
+    mod.__file__ = src + ' + c13_read_names.patch'
+    exec(compile(code, mod.__file__, 'exec'), mod.__dict__)
+    return mod, ''
+
+
+def clash_verdict(desc, mesh):
+    """for every kind of record with EQUAL final names: is what the reader returned exactly the Python-dict overwrite (keys = distinct final
+    names in order of first occurrence, value = the LAST record carrying that name)?  -> list of (kind, final names, keys, explained)"""
+    import numpy as np
+    out = []
+    final = lambda names, pre: [nm if nm else pre + str(i + 1) for i, nm in enumerate(names)]
+    first, ranges = 0, []
+    for b in desc['blocks']:
+        ranges.append(list(range(first, first + len(b))))
+        first += len(b)
+    for kind, got, names, pre, vals in (('block', mesh.blocks, desc['bnames'], 'block_', ranges),
+                                        ('node set', mesh.nodeSets, desc['nsnames'], 'nodeset_', desc['nodesets']),
+                                        ('side set', mesh.sideSets, desc['ssnames'], 'sideset_', [[list(p_) for p_ in s_] for s_ in desc['sidesets']])):
+        fn = final(names, pre)
+        if len(set(fn)) == len(fn):
+            continue
+        keys = list(got.keys())
+        distinct = list(dict.fromkeys(fn))
+        last = {k: v for k, v in zip(fn, vals)}
+        explained = keys == distinct and all(np.asarray(got[k]).tolist() == last[k] for k in keys)
+        out.append((kind, fn, keys, explained))
+    return out
+
+
+def exodus_case(r, clash=False):
     """abstract Exodus description -> (dims, vars, desc)"""
     import numpy as np
     six = r.random() < 0.5
@@ -693,19 +788,21 @@ def exodus_case(r):
                     mids[k] = len(coords)
                     coords.append([(coords[k[0]][0] + coords[k[1]][0]) / 2, (coords[k[0]][1] + coords[k[1]][1]) / 2])
         rows = [t + [mids[tuple(sorted((t[p], t[(p + 1) % 3])))] for p in range(3)] for t in rows]
-    nb = min(r.randrange(1, 4), len(rows))
+    nb = min(r.randrange(2, 5) if clash else r.randrange(1, 4), len(rows))
     cut = sorted(r.sample(range(1, len(rows)), nb - 1)) if nb > 1 else []
     blocks = [rows[a:b] for a, b in zip([0] + cut, cut + [len(rows)])]
-    bnames = [r.choice(['', 'blk%d' % i]) for i in range(nb)]
-    nns = r.randrange(0, 3)
+    bnames = clashy_names(r, nb, 'block_') if clash else [r.choice(['', 'blk%d' % i]) for i in range(nb)]
+    nns = r.randrange(0, 4) if clash else r.randrange(0, 3)
     nodesets = [r.sample(range(len(coords)), r.randrange(1, 6)) for _ in range(nns)]      # file order, NOT sorted (real files list nodes along a curve)
-    nsnames = [r.choice(['', 'ns%d' % i]) for i in range(nns)]
-    nss = r.randrange(0, 3)
+    nsnames = clashy_names(r, nns, 'nodeset_') if clash else [r.choice(['', 'ns%d' % i]) for i in range(nns)]
+    nss = r.randrange(0, 4) if clash else r.randrange(0, 3)
     sidesets = [[(r.randrange(len(rows)), r.randrange(3)) for _ in range(r.randrange(1, 4))] for _ in range(nss)]
-    ssnames = [r.choice(['', 'ss%d' % i]) for i in range(nss)]
+    ssnames = clashy_names(r, nss, 'sideset_') if clash else [r.choice(['', 'ss%d' % i]) for i in range(nss)]
+    width = 12 if clash else 8
+    names_record_ = lambda names: names_record(names, width)
     dims = {'num_nodes': _Dim(len(coords)), 'num_dim': _Dim(2), 'num_el_blk': _Dim(nb)}
     var = {'coordx': _Var(np.array([c[0] for c in coords]), masked=True), 'coordy': _Var(np.array([c[1] for c in coords]), masked=True),
-           'eb_names': _Var(names_record(bnames))}
+           'eb_names': _Var(names_record_(bnames))}
     etype = 'TRI6' if six else r.choice(['TRI3', 'tri', 'TRI'])
     for i, b in enumerate(blocks):
         dims['num_nod_per_el%d' % (i + 1)] = _Dim(6 if six else 3)
@@ -713,12 +810,12 @@ def exodus_case(r):
         var['connect%d' % (i + 1)] = _Var(np.array(b, dtype=np.int32) + 1, elem_type=etype)
     if nns:
         dims['num_node_sets'] = _Dim(nns)
-        var['ns_names'] = _Var(names_record(nsnames))
+        var['ns_names'] = _Var(names_record_(nsnames))
         for i, s in enumerate(nodesets):
             var['node_ns%d' % (i + 1)] = _Var(np.array(s, dtype=np.int32) + 1)
     if nss:
         dims['num_side_sets'] = _Dim(nss)
-        var['ss_names'] = _Var(names_record(ssnames))
+        var['ss_names'] = _Var(names_record_(ssnames))
         for i, s in enumerate(sidesets):
             var['elem_ss%d' % (i + 1)] = _Var(np.array([e for e, _ in s], dtype=np.int32) + 1)
             var['side_ss%d' % (i + 1)] = _Var(np.array([p for _, p in s], dtype=np.int32) + 1)
@@ -755,6 +852,7 @@ def part_readers(ctx, model_ok):
     # (b) Exodus reader on an in-memory dataset
     fake = install_fake_netcdf()
     cases, wexprs, wcases = [], [], []
+    bexprs, bcases, kexprs, kcases, cexprs_, ccases = [], [], [], [], [], []
     if fake:
         from optimism import ReadExodusMesh
         for i in range(ctx.n(15, 120)):
@@ -820,10 +918,72 @@ def part_readers(ctx, model_ok):
             ids = NameIds()
             wexprs.append(exo_expr(desc, ids))
             wcases.append((desc, enc_read_mesh(mesh, ids), 'in-memory'))
+            # block_maps model (M_C13_ReadChk.read_block_maps over the blocks dict of the whole-file model), same name ids
+            bexprs.append('enc_block_maps %s %s' % (exo_args(desc, ids), zl([0] + desc['emap']) if desc['emap'] is not None else '[]'))
+            bcases.append((desc, enc_block_maps_impl(mesh, ids), 'in-memory'))
             ctx.count('exodus_tri6_files' if desc['six'] else 'exodus_tri3_files')
             ctx.count('exodus_blocks', len(desc['blocks']))
             ctx.count('exodus_unnamed_entities', sum(1 for nm in desc['bnames'] + desc['nsnames'] + desc['ssnames'] if not nm))
             ctx.count('exodus_set_members', sum(len(x) for x in desc['nodesets']) + sum(len(x) for x in desc['sidesets']))
+        # (b'') files whose FINAL names may coincide (given names equal to each other or to an auto-generated name): the present reader
+        # against the whole-file model (which predicts the dict overwrite exactly) and against the theorems' conclusions (losses that are
+        # exactly the overwrite are open finding C13-READ-NAMES); the reader with the PROPOSED patch applied in memory against the model
+        # read_exodus_checked (rejects iff the final names are not pairwise distinct, C13_read_exodus_checked_spec) and against
+        # C13_read_exodus_checked_no_loss
+        r2 = ctx.rng('readclash')
+        pmod, perr = patched_reader_module()
+        if pmod is None:
+            ctx.notes.append('the proposed patch c13_read_names.patch does not apply to the current ReadExodusMesh.py (%s); the patched-reader stream is skipped' % perr.strip()[:200])
+        for i in range(ctx.n(14, 90)):
+            dims, var, desc = exodus_case(r2, clash=True)
+            key = 'clash%d' % i
+            _Dataset.store[key] = (dims, var)
+            final = lambda names, pre: [nm if nm else pre + str(j + 1) for j, nm in enumerate(names)]
+            fns = [final(desc['bnames'], 'block_'), final(desc['nsnames'], 'nodeset_'), final(desc['ssnames'], 'sideset_')]
+            clash = any(len(set(fn)) != len(fn) for fn in fns)
+            ctx.count('evaluations')
+            ctx.count('exodus_clash_stream_files')
+            ctx.count('exodus_clash_stream_files_with_equal_final_names', int(clash))
+            case = dict(part='exodus_clash', desc=desc)
+            try:
+                mesh = ReadExodusMesh.read_exodus_mesh(key)
+            except ValueError as ex:
+                mesh = None
+                ctx.count('exodus_clash_files_rejected_by_the_reader')
+                if not clash:
+                    ctx.fail('conclusion', 'read_exodus_mesh rejects a well-formed file with pairwise distinct names: %s' % ex, case=case, concrete=True)
+            ids = NameIds()
+            args = exo_args(desc, ids)
+            emap_term = zl([0] + desc['emap']) if desc['emap'] is not None else '[]'
+            if mesh is not None:
+                for b in exodus_no_loss(desc, mesh):
+                    ctx.fail('conclusion', 'read_exodus_mesh: ' + b, case=case, concrete=True)
+                for kind, fn, keys, explained in clash_verdict(desc, mesh):
+                    ctx.fail('conclusion', 'read_exodus_mesh keeps %d of %d %ss: final names %r coincide and the dict assignment overwrites the earlier record%s'
+                             % (len(keys), len(fn), kind, fn, '' if explained else ' -- and what is kept is NOT the plain overwrite'),
+                             case=dict(part='exodus_clash', clause='record-lost', kind=kind, final_names=fn, kept=keys, equal_final_names=True,
+                                       explained_by_dict_overwrite=bool(explained), desc=desc), concrete=True)
+                    ctx.count('exodus_clash_records_lost', len(fn) - len(keys))
+                if np.asarray(mesh.coords).tolist() != desc['coords']:
+                    ctx.fail('conclusion', 'read_exodus_mesh: coordinates differ from the file', case=case, concrete=True)
+                kexprs.append('enc_rmesh (read_exodus %s)' % args)
+                kcases.append((desc, enc_read_mesh(mesh, ids), 'equal-names stream'))
+                bexprs.append('enc_block_maps %s %s' % (args, emap_term))
+                bcases.append((desc, enc_block_maps_impl(mesh, ids), 'equal-names stream'))
+            if pmod is not None:
+                try:
+                    pm = pmod.read_exodus_mesh(key)
+                except ValueError:
+                    pm = None
+                ctx.count('patched_reader_rejections' if pm is None else 'patched_reader_acceptances')
+                if (pm is None) != clash:
+                    ctx.fail('conclusion', 'the reader with the proposed patch %s a file whose final names are %spairwise distinct'
+                             % ('rejects' if pm is None else 'accepts', 'not ' if clash else ''), case=dict(part='exodus_patched', desc=desc), concrete=True)
+                if pm is not None:
+                    for b in exodus_no_loss(desc, pm):
+                        ctx.fail('conclusion', 'patched read_exodus_mesh: ' + b, case=dict(part='exodus_patched', desc=desc), concrete=True)
+                cexprs_.append('enc_checked (read_exodus_checked %s)' % args)
+                ccases.append((desc, None if pm is None else enc_read_mesh(pm, ids)))
         # (b') REAL Exodus files of the repository (classic netCDF), read by the unchanged reader code through the scipy-backed stand-in
         for rel in REAL_EXODUS:
             path = os.path.join(C.REPO, rel)
@@ -917,6 +1077,33 @@ def part_readers(ctx, model_ok):
         if got != want:
             ctx.fail('correspondence', 'read_json_mesh: side sets of the model (%r) differ from the implementation (%r)' % (got[:12], want[:12]), case=dict(part='json'))
         ctx.count('model_vs_impl_comparisons')
+    # equal-names stream, block_maps, repaired reader: models of M_C13_ReadFile / M_C13_ReadChk against the implementation
+    kres = C.coq_eval(['From OV.model Require Import M_C13_Combine M_C13_Read M_C13_ReadFile M_C13_ReadChk.'], kexprs + bexprs + cexprs_, 'C13g', shard=12, timeout=900, jobs=2)
+    for (desc, (want, wsimplex), tag), got in zip(kcases, kres):
+        cut = len(got) - 1 - got[::-1].index(-7)
+        if got[:cut + 1] != want or sorted(got[cut + 1:]) != wsimplex:
+            d = next((i for i, (a, b) in enumerate(zip(got, want)) if a != b), min(len(got), len(want)))
+            ctx.fail('correspondence', 'read_exodus_mesh (%s): the whole-file reader model differs from the implementation at encoded position %d (%r vs %r)'
+                     % (tag, d, got[d:d + 6], want[d:d + 6]), case=dict(part='exodus_clash', desc=desc))
+        ctx.count('model_vs_impl_comparisons')
+        ctx.count('whole_file_model_comparisons_equal_names')
+    for (desc, want, tag), got in zip(bcases, kres[len(kcases):]):
+        if got != want:
+            ctx.fail('correspondence', 'read_exodus_mesh (%s): block_maps of the model %r differ from the implementation %r' % (tag, got[:14], want[:14]),
+                     case=dict(part='exodus_clash', desc=desc))
+        ctx.count('model_vs_impl_comparisons')
+        ctx.count('block_maps_model_comparisons')
+    for (desc, want), got in zip(ccases, kres[len(kcases) + len(bcases):]):
+        if want is None:
+            ok = got == [-9]
+        else:
+            cut = len(got) - 1 - got[::-1].index(-7) if -7 in got else -1
+            ok = got[:cut + 1] == want[0] and sorted(got[cut + 1:]) == want[1]
+        if not ok:
+            ctx.fail('correspondence', 'patched read_exodus_mesh: the model read_exodus_checked (%s) differs from the source with the proposed patch applied (%s)'
+                     % ('rejects' if got == [-9] else 'accepts', 'rejects' if want is None else 'accepts'), case=dict(part='exodus_patched', desc=desc))
+        ctx.count('model_vs_impl_comparisons')
+        ctx.count('patched_reader_model_comparisons')
 
 
 # ------------------------------------------------------------------------------------------ 5. order elevation (tests only)
@@ -1016,6 +1203,32 @@ def part_elevate(ctx, model_ok=False):
             if conns[t].max() >= n or (np.abs(coords[conns[t]] - img) > bnd).any():
                 bad.append('element %d: a node is out of range or farther from the affine image of its reference node than the proved bound' % t); break
         ctx.count('closed_statement_entries', int(conns.size))
+        # C13_isoparametric_jacobian on the implementation's mesh: at every quadrature point of every element the Jacobian matrix of the
+        # isoparametric map sum_a N_a x_a of the element's OWN nodes is column_stack((v0 - v2, v1 - v2)) and its determinant is the simplex
+        # Jacobian cross(v1 - v0, v2 - v0) that FunctionSpace uses (bound: det_bound with eps 1e-12, lam 256, delta 1e-14, plus binary64
+        # rounding of the sums), and it is positive
+        from optimism import Interpolants as _I, QuadratureRule as _Q
+        qr = _Q.create_quadrature_rule_on_triangle(min(2 * order, 10))
+        shp = _I.compute_shapes(pe, qr.xigauss)
+        Gx_, Gy_, Nv_ = np.asarray(shp.gradients)[:, :, 0], np.asarray(shp.gradients)[:, :, 1], np.asarray(shp.values)
+        vn = np.asarray(pe.vertexNodes)
+        for t in range(len(tris)):
+            Xe = coords[conns[t]]
+            v = Xe[vn]
+            J0 = np.column_stack((v[0] - v[2], v[1] - v[2]))
+            jac = float(np.cross(v[1] - v[0], v[2] - v[0]))
+            J = np.stack([np.stack([Gx_ @ Xe[:, 0], Gy_ @ Xe[:, 0]], axis=-1), np.stack([Gx_ @ Xe[:, 1], Gy_ @ Xe[:, 1]], axis=-1)], axis=-2)   # (nq, 2, 2)
+            size = float(np.abs(v).max() + np.abs(J0).max())
+            eb = (1e-12 + 256 * 5e-14 + 1e-12) * size
+            det = J[:, 0, 0] * J[:, 1, 1] - J[:, 0, 1] * J[:, 1, 0]
+            pos = Nv_ @ Xe
+            img = np.asarray(qr.xigauss)[:, [0]] * v[0] + np.asarray(qr.xigauss)[:, [1]] * v[1] + (1 - np.asarray(qr.xigauss)[:, [0]] - np.asarray(qr.xigauss)[:, [1]]) * v[2]
+            if np.abs(J - J0).max() > eb or np.abs(det - jac).max() > 4 * eb * size + 2 * eb * eb or np.abs(pos - img).max() > eb:
+                bad.append('element %d: the isoparametric map of its nodes is not the affine map of its simplex (Jacobian entries off by %.3g, determinant by %.3g, position by %.3g)'
+                           % (t, np.abs(J - J0).max(), np.abs(det - jac).max(), np.abs(pos - img).max())); break
+            if jac > 4 * eb * size + 2 * eb * eb and not (det > 0).all():
+                bad.append('element %d: non-positive isoparametric Jacobian at a quadrature point' % t); break
+            ctx.count('isoparametric_jacobian_points', int(det.shape[0]))
         # binary64 execution of the SAME coordinate definition the closed theorem is about (em_coords), both components
         refl = '[' + '; '.join('(%s, %s)' % (C.cf(float(x)), C.cf(float(y))) for x, y in ref.tolist()) + ']'
         s1l = '[' + '; '.join(C.cf(float(x)) for x in s1.tolist()) + ']'
@@ -1053,6 +1266,22 @@ def part_elevate(ctx, model_ok=False):
                                      '; '.join('(%s, %s)' % (qq(x), qq(y)) for x, y in refc), zll(fc.tolist()),
                                      '; '.join(qq(x) for x in np.asarray(e1.coordinates)), zl(np.asarray(e1.interiorNodes))))
                     cnames.append('reference element order %d%s: combined certificate elev_cert_okb of the closed elevated-mesh theorem (1e-14)' % (order, ' bubble' if bub else ''))
+                    # ONE certificate for C13_elevated_jacobian_certified: the tables above + the implementation's shape table at the quadrature
+                    # points (values, both parametric gradient rows): degree-1 reproduction within 1e-12, sum |grad N| <= 256
+                    from optimism import QuadratureRule
+                    qrule = QuadratureRule.create_quadrature_rule_on_triangle(min(2 * order, 10))
+                    shp = Interpolants.compute_shapes(el, qrule.xigauss)
+                    ql = lambda v: '[' + '; '.join(qq(x) for x in np.asarray(v).tolist()) + ']'
+                    recs = '; '.join('((%s, %s), (%s, (%s, %s)))' % (qq(xi[0]), qq(xi[1]), ql(Nq), ql(Gq[:, 0]), ql(Gq[:, 1]))
+                                     for xi, Nq, Gq in zip(np.asarray(qrule.xigauss), np.asarray(shp.values), np.asarray(shp.gradients)))
+                    cexprs.append('jac_cert (mk_pe %d %s %s %s %s %s) %d [%s] %s [%s] %s [%s] (1 # 100000000000000) (1 # 1000000000000) (256 # 1)'
+                                  % (int(refc.shape[0]), zl(np.asarray(el.vertexNodes)), zl(fc[0][np.asarray(e1.interiorNodes)]), zl(fc[1][np.asarray(e1.interiorNodes)]),
+                                     zl(fc[2][np.asarray(e1.interiorNodes)]), zl(np.asarray(el.interiorNodes)), order - 1,
+                                     '; '.join('(%s, %s)' % (qq(x), qq(y)) for x, y in refc), zll(fc.tolist()),
+                                     '; '.join(qq(x) for x in np.asarray(e1.coordinates)), zl(np.asarray(e1.interiorNodes)), recs))
+                    cnames.append('reference element order %d%s: certificate jac_cert_okb of the isoparametric-Jacobian theorem (tables 1e-14, shape table at %d quadrature points 1e-12, sum|grad N| <= 256)'
+                                  % (order, ' bubble' if bub else '', int(np.asarray(qrule.xigauss).shape[0])))
+                    ctx.count('shape_table_rows_certified', int(np.asarray(qrule.xigauss).shape[0]))
             xn = [Fraction(float(x)) for x in np.asarray(Interpolants.get_lobatto_nodes_1d(order))]
             cexprs.append('lobatto_sym_cert [%s] (1 # 100000000000000)' % '; '.join('(%d # %d)' % (q.numerator, q.denominator) for q in xn))
             cnames.append('Lobatto nodes of degree %d are symmetric about 1/2 within 1e-14' % order)
@@ -1332,7 +1561,7 @@ def correspondence(ctx, model_ok):
     part_readers(ctx, model_ok)
     part_elevate(ctx, model_ok)
     part_purity(ctx)
-    ctx.cov['parts'] = ['structured', 'edges', 'combine', 'readers(exodus in-memory, json files)', 'elevation (write-log connectivity model, binary64 coordinate model, certificates)', 'purity/aliasing/histories (combine, elevate incl. node-set flags, mesh_with_*, create_edges, reader re-reads)']
+    ctx.cov['parts'] = ['structured', 'edges', 'combine', 'readers(exodus in-memory, equal-final-names stream, proposed patch applied in memory, block_maps model, real files, json files)', 'elevation (write-log connectivity model, binary64 coordinate model, certificates incl. shape-table reproduction, isoparametric Jacobian on the implementation)', 'purity/aliasing/histories (combine, elevate incl. node-set flags, mesh_with_*, create_edges, reader re-reads)']
 
 
 def search(ctx, reasons):
@@ -1352,7 +1581,10 @@ def search(ctx, reasons):
 def matches_finding(fl, f):
     c = fl.get('case') or {}
     if f['id'] == 'C13-READ-NAMES':
-        return False          # no stream generates equal final names; the witness is replayed by finding_fails only
+        # narrow: a record-lost conclusion of the equal-names stream, with equal final names, where what the reader kept is EXACTLY the
+        # dict overwrite (keys = distinct final names in first-occurrence order, values = the last record of each name)
+        return (c.get('part') == 'exodus_clash' and c.get('clause') == 'record-lost' and bool(c.get('equal_final_names'))
+                and bool(c.get('explained_by_dict_overwrite')) and len(set(c.get('final_names') or [])) < len(c.get('final_names') or []))
     if f['id'] == 'F8':
         return (c.get('part') == 'combine' and c.get('clause') == 'lost' and bool(c.get('name_in_both')) and c.get('from_mesh') == 1
                 and bool(c.get('merged_equals_second_only')))
@@ -1366,7 +1598,8 @@ def finding_fails(ctx, f):
         w = exodus_name_clash_witness()
         ctx.cov['read_exodus_name_clash_replay'] = w
         # the model's prediction (C13_read_exodus_name_clash_refuted): two elements, ONE block entry 'block_2' = [1]; element 0 in no block
-        return w is not None and w['elements'] == 2 and w['blocks'] == {'block_2': [1]}
+        # and C13_read_block_maps_name_clash_refuted: the surviving block (element 1, global number 20) is mapped to number 10
+        return w is not None and w.get('elements') == 2 and w.get('blocks') == {'block_2': [1]} and w.get('block_maps') == {'block_2': [10]}
     c2 = copy.copy(ctx)
     c2.failures, c2.counts = [], {}
     run_combine(c2, [tuple(F8_WITNESS)], False, 'k')
